@@ -19,7 +19,8 @@ import (
 // phasent1 <den> <gapopen|d> <gapext|d> <match|_> <mismatch|_> <reverse> <cutend> <code> <orfs> <seq>
 //
 //	Phaser in nucleotide mode (SetTranslate(false, code)), one worker, ONE input sequence named s0.
-//	-> ok v=<variant> <pos>|<nt>|<codon>|<aa>    one result
+//	-> ok v=<variant> <pos>|<removed 0/1>|<nt>|<codon>|<aa>    one result (length / match cut-offs disabled:
+//	                                              `removed` = no alignment with a positive score)
 //	   ERR v=<variant>                            the result carries an error
 //	   err v=<variant>                            Phase() itself returned an error
 //	A panic of the worker goroutine kills the harness process: the driver reports `exit:2`.
@@ -101,7 +102,7 @@ func opPhaseNT1(a []string) string {
 			out = fmt.Sprintf("ERR v=%d", v)
 			continue
 		}
-		out = fmt.Sprintf("ok v=%d %d|%s|%s|%s", v, p.Position, swEnc([]uint8(seqStr(p.NtSeq))),
+		out = fmt.Sprintf("ok v=%d %d|%s|%s|%s|%s", v, p.Position, btoa(p.Removed), swEnc([]uint8(seqStr(p.NtSeq))),
 			swEnc([]uint8(seqStr(p.CodonSeq))), swEnc([]uint8(seqStr(p.AaSeq))))
 	}
 	if n != 1 {
